@@ -6,7 +6,7 @@ wt=/tmp/m_$seed.$$
 git -C /repo worktree add --detach -q $wt HEAD || exit 3
 git -C $wt apply /verif/seeded/$seed/patch.diff || { git -C /repo worktree remove --force $wt; exit 3; }
 mkdir -p $wt/_ev $wt/_rp
-VERIF_REPO_SRC=$wt/src VERIF_EVID_DIR=$wt/_ev VERIF_REPLAY_DIR=$wt/_rp /verif/check $chk --tier quick "$@" 2>&1 | grep -v "^$" | cut -c1-400 | tail -12
+VERIF_REPO_SRC=$wt/src VERIF_EVID_DIR=$wt/_ev VERIF_REPLAY_DIR=$wt/_rp /verif/check $chk --tier quick "$@" 2>&1 | tee /tmp/seedtry.log | grep -v "^$" | cut -c1-400 | tail -12
 rc=${PIPESTATUS[0]}
 git -C /repo worktree remove --force $wt
 echo "seed=$seed check=$chk exit=$rc"
